@@ -142,6 +142,11 @@ def shard_fn(shard, nshards, seed, tier, exe, ntrees, ndoubles):
                 if cm is None:
                     continue
                 extra += ["NAV 0 5 " + " ".join(path)] + cm
+                if rng.random() < 0.35:
+                    # ... and the application then hangs data of its own on the node it just changed (json_object_set_userdata keeps the node's serializer):
+                    # the standard serializers never look at it
+                    extra.append("UD 5 %d" % rng.choice([4242, 7, 123456789]))
+                    sh.count("trees.userdata_attached_after_in_place_mutation.%s" % {"i": "int", "u": "int", "d": "double", "D": "double_with_retained_text", "s": "string", "t": "boolean", "f": "boolean", "[": "array", "{": "object"}.get(c0, c0))
                 value = set_at(value, path, nv)
                 sh.count("trees.mutated_in_place_before_serializing")
                 break
